@@ -57,9 +57,20 @@ impl<C: CommentsParser> MdParser<C> {
                 .first()
                 .context("Empty Tree-sitter html_block query match")?;
             let node = capture.node;
-            let html_block = &contents[node.start_byte()..node.end_byte()];
+            let mut html_block = contents[node.start_byte()..node.end_byte()].to_string();
+            // Container markers at the start of the block's continuation lines (e.g. the ">" of a
+            // block quote) are not a part of the HTML: blank them so that a ">" can't end a tag
+            // written over several lines of a comment.
+            let mut tree_cursor = node.walk();
+            for child in node.children(&mut tree_cursor) {
+                if child.kind() == "block_continuation" {
+                    let range = child.start_byte() - node.start_byte()
+                        ..child.end_byte() - node.start_byte();
+                    html_block.replace_range(range.clone(), &" ".repeat(range.len()));
+                }
+            }
 
-            let mut html_comments = self.html_comments_parser.parse(html_block);
+            let mut html_comments = self.html_comments_parser.parse(&html_block);
             for mut comment in &mut html_comments {
                 // Columns on the first line of the HTML block are relative to the block's start
                 // column (non-zero when the block is indented or nested in a list or a quote).
